@@ -4,7 +4,7 @@ Line protocol driver: `op<TAB>arg…` per line in, one line out.
 Each model area contributes an `ops` table; unknown operations answer `bad-op`.
 -/
 def allOps : List (String × (List String → String)) :=
-  DriverVer.ops ++ DriverRx.ops
+  DriverVer.ops ++ DriverRx.ops ++ DriverMk.ops
 
 def dispatch (line : String) : String :=
   match line.splitOn "\t" with
